@@ -60,7 +60,29 @@ def bsearchKey {α : Type} (l : List α) (key : α → Nat) (k : Nat) : BRes :=
   | some e => if key e = k then .ok i else .err i
   | none => .err i
 
+/-- `bytes[lo..hi]` -/
+def slice (b : Bytes) (lo hi : Nat) : R Bytes :=
+  if lo ≤ hi ∧ hi ≤ b.length then .ok ((b.drop lo).take (hi - lo)) else .error .panic
+
+/-- `bytes[lo..]` -/
+def sliceFrom (b : Bytes) (lo : Nat) : R Bytes :=
+  if lo ≤ b.length then .ok (b.drop lo) else .error .panic
+
+/-- `buf[lo..hi].copy_from_slice(src)`: the lengths have to agree -/
+def copyFromSlice (buf : Bytes) (lo hi : Nat) (src : Bytes) : R Bytes :=
+  if lo ≤ hi ∧ hi ≤ buf.length ∧ src.length = hi - lo then .ok (buf.take lo ++ src ++ buf.drop hi) else .error .panic
+
+/-- `buf[i] = v` -/
+def setIdx (buf : Bytes) (i : Nat) (v : UInt8) : R Bytes :=
+  if i < buf.length then .ok (buf.set i v) else .error .panic
+
 end Rs
+
+/-- `meta::Result`: what `meta::read` returns -/
+inductive MetaResult where
+  | outOfLines (consumed_lines : Nat)
+  | gotMeta (m : Bytes)
+deriving Repr, DecidableEq
 
 /-- the part of `Index` the translated functions read -/
 structure Index where
